@@ -169,6 +169,15 @@ Run(D, K, loc, atStart, fuel) ==
              K1 == <<[f EXCEPT !.i = @ + 1]>> \o rest
          IN
          CASE s.k = "assign" -> Run(D, K1, DoAssign(D, s, loc), FALSE, fuel - 1)   \* "statements run in program order"
+           [] s.k = "local" ->
+                \* a Signal constructed inside a sequential context (_type_qualifier.pyi, Signal.__init__): "By default these
+                \* initializations are NOT the same as a signal assignment. Instead initialization takes place immediately like
+                \* variable assignment.  When delayed_init is set to true initialization behaves like a signal assignment and
+                \* takes one clock cycle."  Either way the signal holds the value after the activation.
+                LET v == CConvert(CEval(s.init, ReadEnv(loc)), D.dflt[s.n]) IN
+                IF CIsErr(v) THEN [K |-> K, loc |-> [loc EXCEPT !.err = v.v]]
+                ELSE Run(D, K1, [loc EXCEPT !.nxt = (s.n :> v) @@ @,
+                                            !.tmp = IF s.delayed = 1 THEN @ ELSE (s.n :> v) @@ @], FALSE, fuel - 1)
            [] s.k = "comment" -> Run(D, K1, loc, atStart, fuel - 1)     \* no effect, not an action
            [] s.k = "bind" ->
                 LET v == CEval(s.e, ReadEnv(loc)) IN
@@ -235,6 +244,7 @@ RECURSIVE StmtTargets(_, _), StmtsTargets(_, _, _)
 \* objects assigned with one of the given modes
 StmtTargets(s, modes) ==
   CASE s.k = "assign" -> IF s.mode \in modes THEN {s.t.obj} ELSE {}
+    [] s.k = "local" -> IF "next" \in modes THEN {s.n} ELSE {}
     [] s.k = "if" -> StmtsTargets(s.th, 1, modes) \cup StmtsTargets(s.el, 1, modes)
     [] s.k = "while" -> StmtsTargets(s.body, 1, modes)
     [] OTHER -> {}
